@@ -407,6 +407,12 @@ func (priv *DSAPrivateKey) Sign(rand io.Reader, hashed []byte) ([]byte, error) {
 		rBytes := r.Bytes()
 		sBytes := s.Bytes()
 
+		// An OTR signature is two 20 byte numbers. A key whose q is longer
+		// than 160 bits gives longer ones - it can not be used for OTR.
+		if len(rBytes) > 20 || len(sBytes) > 20 {
+			return nil, newOtrError("the DSA key cannot be used for OTR: its q is longer than 160 bits")
+		}
+
 		out := make([]byte, 40)
 		copy(out[20-len(rBytes):], rBytes)
 		copy(out[len(out)-len(sBytes):], sBytes)
